@@ -17,4 +17,5 @@ def run(repo, res, tier):
     multidict.rule_p2(repo, res)
     multidict.rule_p3(repo, res)
     multidict.rule_p4(repo, res)
+    multidict.rule_p5(repo, res)
     multidict.rule_m2(repo, res)
